@@ -128,7 +128,9 @@ func DetectAndReadInput(input string) (*InputResult, error) {
 
 	// If stat failed, check if it looks like a file path that doesn't exist
 	// (contains path separators or has .sql extension)
-	if strings.Contains(input, string(filepath.Separator)) || strings.HasSuffix(strings.ToLower(input), ".sql") {
+	// (a text that starts like a statement is SQL even though it contains a
+	// slash: a division, a block comment, a path inside a string)
+	if !looksLikeSQL(input) && (strings.Contains(input, string(filepath.Separator)) || strings.HasSuffix(strings.ToLower(input), ".sql")) {
 		// Looks like a file path but doesn't exist - return the original stat error
 		return nil, fmt.Errorf("invalid file path: %w", statErr)
 	}
